@@ -394,6 +394,7 @@ Section Univ.
   Notation reopen := (reopen N mf succs).
   Notation step := (step N mf succs subj sk true true).
   Notation run := (run N mf succs subj sk true true).
+  Notation obs_equiv := (obs_equiv N succs dflt).
 
   Lemma fold_visit_mono f p (IH : forall c g x, In x g -> In x (visit f p c g)) :
     forall l g x, In x g -> In x (fold_left (fun acc c => visit f p c acc) l g).
@@ -536,8 +537,6 @@ Section Univ.
       + now injection H as <-.
       + now apply (ix_j1 _ I) in H.
   Qed.
-
-  Definition wf_tag (d : desc) (r : ref) := match r with RDig k => k = d_node d | RTag _ => True end.
 
   Definition tag_ix (d : desc) (r : ref) (ix : rmap) : rmap :=
     if is_digest_ref r d then rset r d ix else rset r d (rset (RDig (d_node d)) d ix).
@@ -963,4 +962,199 @@ Section Univ.
         apply (dk4 _ _ S) in X as (e & Ie & <-). apply load_gr_root; auto.
     - unfold Synced, idx. simpl. exact (reload_diskok _ _ S).
   Qed.
+
+  (* ----- every step, every history ----- *)
+  Lemma step_good cfg s oo :
+    Good cfg s -> wf_op (fst oo) -> (autosave cfg = true \/ fst oo <> OReopen) ->
+    Good cfg (fst (step cfg s oo)).
+  Proof.
+    intros G W R. destruct oo as [o ord]. destruct o; simpl in *.
+    - now apply push_good.
+    - now apply tagop_good.
+    - now apply untag_good.
+    - unfold OciIndex.st_delete. now apply delete_loop_good.
+    - now apply gc_good.
+    - destruct G as [H S]. split; [exact H|]. intros _. unfold Synced, idx. simpl. apply save_diskok. apply H.
+    - destruct R as [A|R]; [|congruence]. destruct G as [H S].
+      destruct (reopen_good s H (S A)) as [H' S']. split; auto.
+  Qed.
+
+  Lemma run_good cfg h : forall s,
+    Good cfg s -> wf_history h -> (autosave cfg = true \/ no_reopen h) -> Good cfg (run cfg h s).
+  Proof.
+    induction h as [|oo h IH]; intros s G W R; simpl; auto.
+    inversion W as [|? ? W1 W2]; subst.
+    apply IH; auto.
+    - apply step_good; auto. destruct R as [A|R]; auto. right. now inversion R.
+    - destruct R as [A|R]; auto. right. now inversion R.
+  Qed.
+
+  Lemma good_empty cfg : Good cfg store_empty.
+  Proof. split; [apply inv_empty | intros _; apply synced_empty]. Qed.
+
+  (* ----- the reopened store is observationally equal ----- *)
+  Hypothesis succs_blob : forall k, mf k = false -> succs k = [].
+
+  Lemma mem_iff_eq x a b : (In x a <-> In x b) -> mem x a = mem x b.
+  Proof.
+    intro H. destruct (mem x a) eqn:A; destruct (mem x b) eqn:B; auto.
+    - apply mem_In in A. apply H in A. apply mem_In in A. congruence.
+    - apply mem_In in B. apply H in B. apply mem_In in B. congruence.
+  Qed.
+
+  Lemma reopen_equiv T s : Inv s -> Synced s -> obs_equiv T (reopen s) s.
+  Proof.
+    intros H S. destruct (reopen_good s H S) as [H' S'].
+    pose proof H as H0. unfold Inv, idx in H0. unfold Synced, idx in S.
+    pose proof (inv_ix _ _ _ H0) as I.
+    assert (Ei : r_index (res (reopen s)) = r_index (fold_left load_res (disk s) res_empty)).
+    { unfold OciIndex.reopen, load_index. rewrite load_split. reflexivity. }
+    assert (Eb : blobs (reopen s) = blobs s) by reflexivity.
+    split.
+    - unfold obs_tags. apply filter_ext. intro t. rewrite Ei, (reload_tag _ _ S).
+      destruct (lookup (RTag t) (r_index (res s))); reflexivity.
+    - intro t. unfold obs_resolve_tag. rewrite Ei, (reload_tag _ _ S).
+      destruct (lookup (RTag t) (r_index (res s))) as [d|]; simpl; auto.
+      unfold desc_eqb_mod. simpl. now rewrite !Nat.eqb_refl.
+    - intro k. unfold obs_resolve_dig. rewrite Eb, Ei.
+      pose proof (reload_dig _ _ S k) as X. pose proof (reload_j2 _ _ S k) as J.
+      destruct (lookup (RDig k) (r_index (fold_left load_res (disk s) res_empty))) as [d'|] eqn:L';
+        destruct (lookup (RDig k) (r_index (res s))) as [d|] eqn:L.
+      + rewrite (J _ eq_refl), (ix_j2 _ I _ _ L), Nat.eqb_refl. reflexivity.
+      + exfalso. destruct X as [X1 X2]. apply X1; congruence.
+      + exfalso. destruct X as [X1 X2]. apply X2; congruence.
+      + reflexivity.
+    - intro k. reflexivity.
+    - intro k. unfold obs_preds, predecessors. apply filter_ext. intro p.
+      destruct (mf p) eqn:Mp.
+      + f_equal. apply mem_iff_eq. split; intro X.
+        * eapply inv_g2b; [exact H|exact Mp|]. eapply inv_g2a in X; [|exact H'|exact Mp]. exact X.
+        * eapply inv_g2b; [exact H'|exact Mp|]. eapply inv_g2a in X; [|exact H|exact Mp]. exact X.
+      + rewrite (succs_blob _ Mp). simpl. now rewrite !andb_false_r.
+  Qed.
+
+  Lemma disk_valid_inv s : Inv s -> Synced s -> disk_valid s = true.
+  Proof.
+    intros H S. unfold disk_valid. apply forallb_forall. intros e Ie. apply mem_In.
+    pose proof (dk3 _ _ S _ Ie) as X. unfold idx in X.
+    destruct (lookup (RDig (d_node e)) (r_index (res s))) as [d|] eqn:L; [|congruence].
+    rewrite <- (ix_j2 _ (inv_ix _ _ _ H) _ _ L). eapply inv_i4; [exact H|exact L].
+  Qed.
+
+  (* AutoSaveIndex on: after every history (read-write reopening included) *)
+  Theorem reopen_equiv_autosave T cfg h :
+    autosave cfg = true -> wf_history h ->
+    let s := run cfg h store_empty in
+    obs_equiv T (reopen s) s /\ disk_valid s = true.
+  Proof.
+    intros A W s. destruct (run_good cfg h store_empty (good_empty cfg) W (or_introl A)) as [H S].
+    split; [apply reopen_equiv | apply disk_valid_inv]; auto.
+  Qed.
+
+  (* AutoSaveIndex off (or on): any history without reopening, followed by SaveIndex *)
+  Theorem reopen_equiv_saveindex T cfg h o :
+    wf_history h -> no_reopen h ->
+    let s := run cfg (h ++ [(OSave, o)]) store_empty in
+    obs_equiv T (reopen s) s /\ disk_valid s = true.
+  Proof.
+    intros W R s.
+    destruct (run_good cfg h store_empty (good_empty cfg) W (or_intror R)) as [H _].
+    assert (E : s = do_save o (run cfg h store_empty)).
+    { unfold s, OciIndex.run. rewrite fold_left_app. reflexivity. }
+    assert (H' : Inv s) by (rewrite E; exact H).
+    assert (S' : Synced s).
+    { rewrite E. unfold Synced, idx. simpl. apply save_diskok. apply H. }
+    split; [apply reopen_equiv | apply disk_valid_inv]; auto.
+  Qed.
+
+  (* the representation facts other properties rely on (C07: the reloaded graph is the live graph) *)
+  Theorem store_invariant cfg h :
+    wf_history h -> (autosave cfg = true \/ no_reopen h) ->
+    let s := run cfg h store_empty in
+    (forall k, mf k = true -> In k (blobs s) -> lookup (RDig k) (r_index (res s)) <> None /\ In k (gr s)) /\
+    (forall k, mf k = true -> In k (gr s) -> In k (blobs s)) /\
+    (forall r d, lookup r (r_index (res s)) = Some d -> In (d_node d) (blobs s)).
+  Proof.
+    intros W R s. destruct (run_good cfg h store_empty (good_empty cfg) W R) as [H _].
+    split; [|split].
+    - intros k Mk Ik. split; [eapply inv_k | eapply inv_g2b]; eauto.
+    - intros k Mk Ik. eapply inv_g2a; eauto.
+    - intros r d L. eapply inv_i4; eauto.
+  Qed.
 End Univ.
+
+(* ---------- the code as found: witnesses ---------- *)
+Definition ex_cfg := mkCfg true false.
+Definition ex_plain_hist (l : list op) : list (op * orders) := map (fun o => (o, ord0)) l.
+
+(* F2: GC without saving index.json.  One manifest, pushed, never tagged, collected. *)
+Lemma refuted_gc_not_saved :
+  exists (N : nat) (mf : nat -> bool) (succs : nat -> list nat) (subj : nat -> option nat)
+         (sk dflt : nat -> bool) (cfg : config) (h : list (op * orders)),
+    autosave cfg = true /\ wf_history h /\
+    let s := run N mf succs subj sk false true cfg h store_empty in
+    obs_resolve_dig dflt (reopen N mf succs s) 0 <> obs_resolve_dig dflt s 0 /\ disk_valid s = false.
+Proof.
+  exists 1, (fun _ => true), (fun _ => []), (fun _ => None), (fun _ => false), (fun _ => false),
+    ex_cfg, (ex_plain_hist [OPush 0; OGC]).
+  split; [reflexivity|]. split; [repeat constructor|].
+  vm_compute. split; [discriminate|reflexivity].
+Qed.
+
+(* GC drops the digest reference of a kept child manifest (node 1, listed by the tagged
+   index 2); after Delete of the index (AutoGC off) the reopened store no longer indexes it. *)
+Definition ex_mf (k : nat) := match k with 1 | 2 => true | _ => false end.
+Definition ex_succs (k : nat) := match k with 1 => [0] | 2 => [1] | _ => [] end.
+Lemma refuted_gc_drops_digest_ref :
+  exists (N : nat) (mf : nat -> bool) (succs : nat -> list nat) (subj : nat -> option nat)
+         (sk dflt : nat -> bool) (cfg : config) (h : list (op * orders)),
+    autosave cfg = true /\ wf_history h /\ (forall k, mf k = false -> succs k = []) /\
+    let s := run N mf succs subj sk true false cfg h store_empty in
+    obs_preds N succs (reopen N mf succs s) 0 <> obs_preds N succs s 0.
+Proof.
+  exists 3, ex_mf, ex_succs, (fun _ => None), (fun _ => true), (fun _ => false),
+    ex_cfg, (ex_plain_hist [OPush 1; OPush 2; OTag (plain 2) (RTag 0); OGC; ODelete 2]).
+  split; [reflexivity|]. split; [repeat constructor|]. split.
+  - intros [|[|[|k]]]; simpl; intro; try discriminate; reflexivity.
+  - vm_compute. discriminate.
+Qed.
+
+(* the hypotheses are satisfiable by a non-trivial history; the repaired model on the same
+   histories *)
+Definition ex_hist : list (op * orders) :=
+  [ (OPush 0, ord0); (OPush 1, ord0); (OPush 2, ord0);
+    (OTag (mkDesc 2 1 (Some (RTag 5))) (RTag 0), mkOrd [1;0] [2] [] []);
+    (OTag (plain 1) (RTag 1), ord0); (OTag (mkDesc 1 2 None) (RTag 0), ord0);
+    (OTag (plain 0) (RDig 0), ord0);
+    (OUntag (RTag 1), mkOrd [3;1] [0;2] [] []); (OGC, mkOrd [] [1] [2;1] [1;1;0]);
+    (ODelete 2, ord0); (OReopen, ord0); (OPush 2, ord0) ].
+Lemma example_history :
+  wf_history ex_hist /\ (forall k, ex_mf k = false -> ex_succs k = []) /\
+  let s := run 3 ex_mf ex_succs (fun _ => None) (fun _ => true) true true ex_cfg ex_hist store_empty in
+  obs_tags 3 s = [0] /\ obs_resolve_tag s 0 = Some (mkDesc 1 2 (Some (RTag 0))) /\
+  obs_preds 3 ex_succs s 1 = [2] /\ obs_preds 3 ex_succs s 0 = [1] /\
+  obs_preds 3 ex_succs (reopen 3 ex_mf ex_succs s) 0 = [1] /\ disk_valid s = true.
+Proof.
+  split; [repeat constructor|]. split.
+  - intros [|[|[|k]]]; simpl; intro; try discriminate; reflexivity.
+  - vm_compute. repeat split.
+Qed.
+Lemma example_repaired :
+  let s := run 3 ex_mf ex_succs (fun _ => None) (fun _ => true) true true ex_cfg
+             (ex_plain_hist [OPush 1; OPush 2; OTag (plain 2) (RTag 0); OGC; ODelete 2]) store_empty in
+  obs_preds 3 ex_succs (reopen 3 ex_mf ex_succs s) 0 = [1] /\ obs_preds 3 ex_succs s 0 = [1].
+Proof. vm_compute. split; reflexivity. Qed.
+
+(* a tag name that is the digest string of another node breaks J2 and the
+   equivalence: why [wf_history] is needed *)
+Lemma inconsistent_reference_example :
+  exists h, ~ wf_history h /\
+    let s := run 2 (fun _ => true) (fun _ => []) (fun _ => None) (fun _ => true) true true ex_cfg h store_empty in
+    obs_resolve_dig (fun _ => false) (reopen 2 (fun _ => true) (fun _ => []) s) 1 <> obs_resolve_dig (fun _ => false) s 1.
+Proof.
+  exists (ex_plain_hist [OPush 0; OTag (plain 0) (RDig 1)]).
+  split.
+  - intro W. inversion W as [|? ? _ W2]; subst. inversion W2 as [|? ? W3 _]; subst.
+    simpl in W3. discriminate.
+  - vm_compute. discriminate.
+Qed.
